@@ -9,7 +9,7 @@ from . import c01
 RULE = ("Hypothesis-generated hosts with, for each drawn payload type T (every primitive, enums with negative/gapped discriminants, structs with and without padding, "
         "out-structs in return positions), "
         "twin methods that differ only in spelling: Option<T> vs DiplomatOption<T> as parameter and as return, Result<T,E> vs DiplomatResult<T,E> with unit and non-unit "
-        "arms, plus optional opaque pointers (Option<&O> in, Option<&O> / Option<Box<O>> out) and a struct carrying DiplomatOption<T> and Option<&O> fields in both directions. "
+        "arms (also on methods that return text through a DiplomatWrite), plus optional opaque pointers (Option<&O> in, Option<&O> / Option<Box<O>> out) and a struct carrying DiplomatOption<T> and Option<&O> fields in both directions. "
         "Twins receive identical drawn call vectors. Oracle: (1) the C prototypes and result typedefs of each twin pair are token-identical after renaming; (2) executed through "
         "the generated header (gcc, ASan+UBSan) both twins log and return exactly the drawn values; (3) read from C as bytes, is_ok is 0 or 1 and 1 exactly for Some/Ok, it "
         "sits after the payload union, sizeof of every result/option equals the size of the type the proc macro returns, None pointers are NULL and Some pointers are not. "
@@ -42,7 +42,7 @@ def cases(draw):
     # out-structs can only be returned: they take part in the `_out_` and `_res_` twins
     outs = [i for i in items if i["kind"] == "struct" and i.get("out") and i["fields"] and not i.get("lifetimes")]
     out_only = [["struct", s_["name"], []] for s_ in outs[:2]]
-    methods, twins = [], []
+    methods, twins, same_body = [], [], []
 
     def add(name, params, ret):
         methods.append({"name": name, "attrs": [], "lifetimes": [], "self": ["ref", None, False], "params": params, "ret": ret})
@@ -61,6 +61,12 @@ def cases(draw):
             for sp in ("std", "dip"):
                 add("%s_res_%d_%d" % (sp, k, ri), [], ["result", copy.deepcopy(ok), copy.deepcopy(err), sp])
             twins.append(("std_res_%d_%d" % (k, ri), "dip_res_%d_%d" % (k, ri)))
+        # the same unit-Ok results on methods that also return text through a DiplomatWrite (the success value travels in the
+        # writer, the wire encoding of the result is unchanged)
+        for sp in ("std", "dip"):
+            add("%s_resw_%d" % (sp, k), [["dv_w", ["write"], []]], ["result", ["unit"], copy.deepcopy(E), sp])
+        twins.append(("std_resw_%d" % k, "dip_resw_%d" % k))
+        same_body.append(("std_res_%d_1" % k, "std_resw_%d" % k))
     add("optref_in", [["x", ["opt", ["ref", None, False, host["name"], []], "std"], []], ["tail", ["prim", "i64"], []]], ["prim", "bool"])
     # the same optional pointer spelled through `Self`
     add("optself_in", [["x", ["opt", ["ref", None, False, host["name"], [], "Self"], "std"], []], ["tail", ["prim", "i64"], []]], ["prim", "bool"])
@@ -85,6 +91,7 @@ def cases(draw):
         by_name[b]["calls"] = copy.deepcopy(by_name[a]["calls"])
         for c in by_name[b]["calls"]:
             pass
+    prog["_same_body"] = same_body
     return prog, plan, twins, host["name"]
 
 
@@ -117,6 +124,12 @@ def decl_identity(prog, twins, host, cdir, protos):
             bad.append("twin %s/%s: return types differ: %s vs %s" % (a, b, ra, rb))
         elif ra in tds and rb in tds and tds[ra] != tds[rb]:
             bad.append("twin %s/%s: result typedef bodies differ: {%s} vs {%s}" % (a, b, tds[ra], tds[rb]))
+    # a write parameter does not change the record a Result<(), E> comes back in
+    for a, b in prog.get("_same_body", []):
+        if syms.get(a) in protos and syms.get(b) in protos:
+            ra, rb = protos[syms[a]][0], protos[syms[b]][0]
+            if ra in tds and rb in tds and tds[ra] != tds[rb]:
+                bad.append("%s / %s: the same Result<(), E> is declared as {%s} without and {%s} with a DiplomatWrite parameter" % (a, b, tds[ra], tds[rb]))
     return bad
 
 
